@@ -77,6 +77,8 @@ if __name__ == "__main__":
         text, info = translate()
     except TranslateError as e:
         print("TRANSLATE-ERROR Gen_ScalingZ: %s" % e)
+        if os.path.exists(info_path(dst)):
+            os.remove(info_path(dst))       # the evaluator then falls back to the last-good copy, like the .v file
         sys.exit(2)
     ch = write_if_changed(dst, text)
     write_if_changed(info_path(dst), json.dumps(info, sort_keys=True))
